@@ -8,9 +8,9 @@ import (
 )
 
 // Generator discipline: structured, mostly valid histories (distinct contents, one chain id, bounded
-// queue) plus a malformed stream.  The two known findings are produced deliberately by dedicated
-// scenario kinds (and by the first two fixed scenarios); the kinds "plain" and "sorted" avoid them,
-// so that on those any report is new.
+// queue) plus a malformed stream.  The three known findings are produced deliberately by dedicated
+// scenario kinds (and by the fixed scenarios); the kinds "plain" and "sorted" avoid the first two,
+// so that on those any report other than the crash-window loss (crash-next at=1) is new.
 
 type gen struct {
 	r    *hx.Rng
@@ -333,6 +333,60 @@ func (g *gen) fixed() {
 	g.submit(a)
 	g.line("restart")
 	g.drain()
+	// (c) the process dies in GetNextBatch after the Delete is durable, before the call returns: the batch is lost
+	g.reset("seq", 0)
+	g.line("submit id=%s txs=aa03", id)
+	g.line("crash-next at=1 id=%s", id)
+	g.drain()
+	// (c') … with a second batch behind it: only the oldest one is lost
+	g.reset("seq", 0)
+	g.submit(b)
+	g.submit(a)
+	g.line("crash-next at=1 id=%s", id)
+	g.drain()
+	// the neighbouring crash point (before the Delete is durable): fine
+	g.reset("seq", 0)
+	g.line("submit id=%s txs=aa03", id)
+	g.line("crash-next at=0 id=%s", id)
+	g.drain()
+	// equal contents that are never pending at the same time: accept, hand out, accept again, restart: fine
+	g.reset("seq", 0)
+	g.line("submit id=%s txs=aa04", id)
+	g.next()
+	g.line("submit id=%s txs=aa04", id)
+	g.line("restart")
+	g.drain()
+	g.line("submit id=%s txs=aa04", id)
+	g.line("crash-next at=0 id=%s", id)
+	g.line("crash-submit at=1 id=%s txs=aa05", id)
+	g.drain()
+}
+
+// reuse: contents come back again and again but are never pending twice at the same time (the sharp hypothesis of
+// C10_restart_partial), batches submitted so that the pending ones are in key order at every restart: free of the
+// first two findings, with restarts and both crash kinds of submit, crash-next at=0 only.
+func (g *gen) reuse(rounds int) {
+	g.reset("seq", []int{0, 2, 3}[g.r.Intn(3)])
+	pool := [][][]byte{g.fresh(), g.fresh(), g.fresh()}
+	for i := 0; i < rounds; i++ {
+		b := pool[g.r.Intn(len(pool))]
+		if g.r.Chance(25) {
+			g.line("crash-submit at=1 id=%s txs=%s", hx.Hex(chainID), hx.HexList(b))
+		} else {
+			g.submit(b)
+		}
+		if g.r.Chance(50) {
+			g.line("restart")
+		}
+		if g.r.Chance(25) {
+			g.line("crash-next at=0 id=%s", hx.Hex(chainID))
+		}
+		g.next() // at most one batch is ever pending
+		if g.r.Chance(30) {
+			g.line("restart")
+		}
+	}
+	g.drain()
 }
 
 func genC10(r *hx.Rng, tier string, w io.Writer) {
@@ -365,17 +419,25 @@ func genC10(r *hx.Rng, tier string, w io.Writer) {
 	for i := 0; i < 10*mul; i++ {
 		g.dups(ops/2 + r.Intn(ops))
 	}
+	for i := 0; i < 8*mul; i++ {
+		g.reuse(4 + r.Intn(8))
+	}
 	for i := 0; i < 12*mul; i++ {
 		g.bound(i%3 != 0, i%2 == 0)
 	}
 	for i := 0; i < 15*mul; i++ {
 		g.queue(ops/2 + r.Intn(ops))
 	}
+	// concurrent callers on the real Sequencer, checked with porcupine against the bounded FIFO (both tiers):
+	// 2 writers + 1 reader, distinct and equal contents; the thorough tier adds larger families
+	g.reset("seq", 0)
+	for i := 0; i < 8; i++ {
+		g.line("conc seed=%d writers=2 per=%d readers=1 max=%d dup=%d", r.Intn(1000), 3+r.Intn(4), []int{0, 0, 2, 3}[r.Intn(4)], i%2)
+	}
 	if tier == "thorough" {
-		// supporting exploration: concurrent histories (porcupine) and real badger with reopen
-		g.reset("seq", 0)
+		// supporting exploration: larger concurrent histories and real badger with reopen
 		for i := 0; i < 12; i++ {
-			g.line("conc seed=%d writers=%d per=%d readers=%d max=%d", r.Intn(1000), 2+r.Intn(3), 4+r.Intn(6), 1+r.Intn(2), []int{0, 0, 2, 5}[r.Intn(4)])
+			g.line("conc seed=%d writers=%d per=%d readers=%d max=%d dup=%d", r.Intn(1000), 2+r.Intn(3), 4+r.Intn(6), 1+r.Intn(2), []int{0, 0, 2, 5}[r.Intn(4)], i%3/2)
 		}
 		for i := 0; i < 6; i++ {
 			g.line("badger seed=%d n=%d", r.Intn(100000), 40+r.Intn(60))
